@@ -221,11 +221,13 @@ def build(members, layout=None) -> bytes:
         packed, coders, sizes = encode_chain(blob, f["chain"], password, iv=iv)
         packs.append(packed)
         # "folder": one CRC per folder; "folder_partial": only for the folders not marked "nocrc" (partially defined vector)
-        fcrc = zlib.crc32(blob) if (crc_mode == "folder" or (crc_mode == "folder_partial" and not f.get("nocrc"))) else None
+        # "mixed": both levels at once - a folder with a single stream keeps its CRC in UnpackInfo (and lends it to that stream),
+        # the streams of the other folders have theirs in SubStreamsInfo
+        fcrc = zlib.crc32(blob) if (crc_mode == "folder" or (crc_mode == "folder_partial" and not f.get("nocrc")) or (crc_mode == "mixed" and len(f["members"]) == 1)) else None
         folders.append({"coders": coders, "sizes": sizes, "crc": fcrc})
         nums.append(len(f["members"]))
         ssizes.append([len(members[i]["data"]) for i in f["members"]])
-        if crc_mode == "substream":
+        if crc_mode == "substream" or (crc_mode == "mixed" and len(f["members"]) != 1):
             scrcs.append([zlib.crc32(members[i]["data"]) for i in f["members"]])
         else:
             scrcs.append([None] * len(f["members"]))
